@@ -15,7 +15,7 @@ use crate::tokenfactory;
 use crate::types::{UnsafeNativeChainConfig, UnsafeProtocolChainConfig, UnsafeProtocolFeeConfig};
 use cosmwasm_std::{
     ensure, Coin, CosmosMsg, Deps, DepsMut, Env, IbcTimeout, MessageInfo, Order, ReplyOn, Response,
-    SubMsg, SubMsgResponse, SubMsgResult, Timestamp, Uint128,
+    StdError, SubMsg, SubMsgResponse, SubMsgResult, Timestamp, Uint128,
 };
 use cw_utils::PaymentError;
 use milky_way::staking::{Batch, BatchStatus};
@@ -398,7 +398,11 @@ pub fn execute_submit_batch(
     let new_pending_batch = Batch::new(
         batch.id + 1,
         Uint128::zero(),
-        env.block.time.seconds() + config.batch_period,
+        env.block
+            .time
+            .seconds()
+            .checked_add(config.batch_period)
+            .ok_or_else(|| StdError::generic_err("batch period is too large"))?,
     );
 
     // Save new pending batch
@@ -440,7 +444,13 @@ pub fn execute_submit_batch(
     batch.expected_native_unstaked = Some(unbond_amount);
     batch.update_status(
         BatchStatus::Submitted,
-        Some(env.block.time.seconds() + config.native_chain_config.unbonding_period),
+        Some(
+            env.block
+                .time
+                .seconds()
+                .checked_add(config.native_chain_config.unbonding_period)
+                .ok_or_else(|| StdError::generic_err("unbonding period is too large"))?,
+        ),
     );
 
     BATCHES.save(deps.storage, batch.id, &batch)?;
